@@ -887,8 +887,9 @@ static std::unique_ptr<Runner> g_runner;
 static auto step(Line const& l) -> std::string
 {
     // watchdog: a single operation that runs away (e.g. a loop whose bound no longer matches a truncated
-    // size) ends the process; check.py reports the line as a crash instead of hanging
-    alarm(5);
+    // size) ends the process; check.py reports the line as a crash instead of hanging.  Wall-clock seconds:
+    // generous, the machine may be heavily loaded
+    alarm(20);
     if (l.op == "new" || l.op == "api_bits" || l.op == "api_assign" || l.op == "api_member") {
         auto ty   = l.str("ty");
         auto cap  = static_cast<std::size_t>(l.i("cap"));
@@ -912,6 +913,7 @@ static auto step(Line const& l) -> std::string
 int main(int argc, char** argv)
 {
     int rc = proto::run(argc, argv, step);
+    alarm(0); // all lines answered: the watchdog must not fire during teardown / the leak check at exit
     g_runner.reset();
     return rc;
 }
